@@ -41,6 +41,12 @@ def run_traces(ctx: Ctx, specs: list[dict], prefixes: tuple[str, ...], *, label=
     bad = [r for r in runs if r.get("trace") is None]
     if bad:
         raise Machinery(f"harness error while executing a run spec:\n{bad[0].get('harness_error')}")
+    # runs in which the user's objective or gradient produced inf / NaN are outside every property's quantifier
+    # (objectives are finite on the box); they are counted, not judged
+    skipped = [r for r in runs if r.get("nonfinite") and not r["spec"].get("fault")]
+    if skipped:
+        ctx.cov["runs_with_nonfinite_objective_values_not_judged"] = ctx.cov.get("runs_with_nonfinite_objective_values_not_judged", 0) + len(skipped)
+        runs = [r for r in runs if not (r.get("nonfinite") and not r["spec"].get("fault"))]
     viols = validate(ctx, [r["trace"] for r in runs], name=label)
     ctx.add_counts(evaluations=len(runs))
     shapes = set()
